@@ -318,6 +318,32 @@ func applyMutation(b []byte, m plan.Mutation) []byte {
 		nb := append([]byte(nil), b[:o]...)
 		nb = append(nb, m.Data...)
 		b = append(nb, b[o:]...)
+	case "oversize":
+		// a stored (raw) block of exactly the block maximum grows by m.Val
+		// bytes: its size word announces more than the declared maximum
+		f := ref.Parse(b, ref.ParseOpt{})
+		for bi, blk := range f.Blocks {
+			if blk.Raw && blk.StoredLen == f.BlockMax && f.BlockMax > 0 {
+				if s, e, ok := blockRange(fs, bi); ok {
+					d := m.Val
+					if d <= 0 {
+						d = 1
+					}
+					end := s + 4 + blk.StoredLen
+					extra := make([]byte, d)
+					for i := range extra {
+						extra[i] = byte(i*7 + 1)
+					}
+					nb := append([]byte(nil), b[:end]...)
+					nb = append(nb, extra...)
+					nb = append(nb, b[end:]...)
+					sz := uint32(blk.StoredLen+d) | 0x80000000
+					nb[s], nb[s+1], nb[s+2], nb[s+3] = byte(sz), byte(sz>>8), byte(sz>>16), byte(sz>>24)
+					_ = e
+					return nb
+				}
+			}
+		}
 	case "cutrand":
 		if len(b) > 1 {
 			by := m.Byte
